@@ -77,6 +77,9 @@ pub struct Stats {
     pub ctx_values_seen: u32,
     /// some consumer node saw two different context values within one parse
     pub ctx_multi: u32,
+    pub memo_revisits: u32,
+    pub memo_failures: u32,
+    pub memo_two_at_one_pos: u32,
     pub try_cfg_errs: u32,
     pub fuel_out: bool,
     /// failure events with unspecified positions were generated (nested_delimiters' scanner)
@@ -127,6 +130,7 @@ pub struct Rf<'a> {
     ws_ranges: Vec<(u32, usize, usize)>,
     next_scope: u32,
     ctx_seen: HashMap<u32, u64>,
+    memo_seen: HashMap<(u32, usize), u32>,
     /// user state left behind in the caller's scope after the whole parse
     pub final_state: (u64, u64),
 }
@@ -162,6 +166,7 @@ pub fn eval(g: &G, toks: &[char], opts: RefOpts) -> RefOut {
         ws_ranges: vec![],
         next_scope: 1,
         ctx_seen: HashMap::new(),
+        memo_seen: HashMap::new(),
         final_state: (0, 0),
     };
     let env = Env { ctx: Val::Unit, st_seed: None, st_start: 0, in_ws: false, depth: 0, scope: 0 };
@@ -774,7 +779,23 @@ impl<'a> Rf<'a> {
                     }
                 }
             }
-            Memo(a) | Wrapped(a, _) => self.ev(a, pos, env),
+            Memo(a) => {
+                let id = self.ids[&(g as *const G)];
+                if self.memo_seen.keys().any(|(i, p)| *p == pos && *i != id) {
+                    self.stats.memo_two_at_one_pos += 1;
+                }
+                let n = self.memo_seen.entry((id, pos)).or_insert(0);
+                *n += 1;
+                if *n > 1 {
+                    self.stats.memo_revisits += 1;
+                }
+                let r = self.ev(a, pos, env);
+                if r.is_err() {
+                    self.stats.memo_failures += 1;
+                }
+                r
+            }
+            Wrapped(a, _) => self.ev(a, pos, env),
             Rec(id, body) => {
                 let prev = self.recs.insert(*id, body);
                 let r = self.ev(body, pos, env);
